@@ -106,6 +106,30 @@ theorem nodesBetweenP_order : ∀ (kids : List Node) (p : TypeId) (f t start i0 
           simp only [Node.size]
           omega
 
+/-- the walk with parents is the walk of PM/Resolve.lean (`nodesBetween`, tied to the code by the
+    `nodesBetween` request of C09) with the parent type added -/
+theorem nodesBetweenP_forget : ∀ (kids : List Node) (p : TypeId) (f t start i0 : Nat),
+    (nodesBetweenP p kids f t start i0).map (fun v => (v.node, v.pos, v.index)) = nodesBetween kids f t start i0
+  | [], p, f, t, start, i0 => by simp [nodesBetweenP, nodesBetween]
+  | n :: ns, p, f, t, start, i0 => by
+    rw [nodesBetweenP_cons, nodesBetween_cons]
+    split
+    · rfl
+    · rw [List.map_append, nodesBetweenP_forget ns]
+      congr 1
+      split
+      · rw [List.map_cons]
+        congr 1
+        cases n with
+        | text s m => rfl
+        | leaf ty a m => rfl
+        | elem ty a m kids =>
+          simp only
+          split
+          · rfl
+          · exact nodesBetweenP_forget kids ty _ _ _ _
+      · rfl
+
 theorem ctxAux_units_getElem? (s : List Nat) (m : Marks) (st : List TypeId) (j : Nat) (hj : j < s.length) :
     (ctxAux st (s.map (Tok.unit · m)))[j]? = some (st.headD 0) := by
   induction s generalizing j with
